@@ -2,6 +2,8 @@ package maypanic
 
 import (
 	"go/token"
+	"go/types"
+	"strings"
 
 	"golang.org/x/tools/go/ssa"
 )
@@ -130,4 +132,61 @@ func Harness_C19_allow_list() {
 	k := verifPick("path", 0, len(paths)-1)
 	verifReach("looked-up")
 	verifAssert("allow-listed-iff-equal-or-under-a-listed-path", allowListed(paths[k]) == want[k])
+}
+
+// Harness_C19_analyzer: the whole MayPanicAnalyzer on a hand-built program: which goroutine entry functions it
+// prints, including functions without an enclosing package (generic instantiations, synthetic wrappers) and
+// functions of allow-listed / look-alike packages.
+func Harness_C19_analyzer() {
+	userPkg := &ssa.Package{Pkg: types.NewPackage("example.com/app", "app"), Members: map[string]ssa.Member{}}
+	stdPkg := &ssa.Package{Pkg: types.NewPackage("net/http", "http"), Members: map[string]ssa.Member{}}
+	alikePkg := &ssa.Package{Pkg: types.NewPackage("network/tools", "tools"), Members: map[string]ssa.Member{}}
+	prog := &ssa.Program{Fset: token.NewFileSet()}
+	verifSetUnexported(prog, "packages", map[*types.Package]*ssa.Package{userPkg.Pkg: userPkg, stdPkg.Pkg: stdPkg, alikePkg.Pkg: alikePkg})
+	mk := func(name string, pkg *ssa.Package) *ssa.Function {
+		f := &ssa.Function{Pkg: pkg, Prog: prog, Signature: types.NewSignatureType(nil, nil, nil, nil, nil, false)}
+		verifSetUnexported(f, "name", name)
+		f.Blocks = []*ssa.BasicBlock{{Index: 0, Instrs: []ssa.Instruction{&ssa.Return{}}}}
+		if pkg != nil {
+			pkg.Members[name] = f
+			pkg.Prog = prog
+		}
+		return f
+	}
+	main := mk("main", userPkg)
+	recoverer := mk("recoverer", userPkg)
+	rb := &ssa.Builtin{}
+	verifSetUnexported(rb, "name", "recover")
+	rc := &ssa.Call{}
+	rc.Call.Value = rb
+	recoverer.Blocks[0].Instrs = []ssa.Instruction{rc, &ssa.Return{}}
+	// the launched function: where it lives and whether it defers a recovering function
+	where := verifPick("launched-function-package", 0, 3)
+	var launched *ssa.Function
+	switch where {
+	case 0:
+		launched = mk("worker", userPkg)
+	case 1:
+		launched = mk("stage[int]", nil) // no enclosing package: generic instantiation / synthetic wrapper
+	case 2:
+		launched = mk("serve", stdPkg)
+	default:
+		launched = mk("poll", alikePkg)
+	}
+	recovers := verifBool("launched-function-defers-recover")
+	if recovers {
+		d := &ssa.Defer{}
+		d.Call.Value = recoverer
+		launched.Blocks[0].Instrs = []ssa.Instruction{d, &ssa.Return{}}
+	}
+	g := &ssa.Go{}
+	g.Call.Value = launched
+	verifSetUnexported(g, "pos", token.Pos(1))
+	main.Blocks[0].Instrs = []ssa.Instruction{g, &ssa.Return{}}
+	out := verifCaptureStdout(func() { MayPanicAnalyzer(prog, nil, false) })
+	verifReach("analyzer-ran")
+	reported := strings.Contains(out, "unrecovered panic in") && strings.Contains(out, launched.Name())
+	expect := !recovers && where != 2 // standard-library entries are out of scope, everything else is reported
+	verifAssert("goroutine-entry-without-recovering-defer-is-reported", !expect || reported)
+	verifAssert("recovering-or-allow-listed-entry-is-not-reported", expect || !reported)
 }
